@@ -29,11 +29,12 @@ impl Prop for C03 {
     fn enumerate(&self, _tier: Tier) -> Vec<HistCase> {
         let mut v = gen::enumerate_histories(1);
         v.extend(gen::enumerate_histories(2));
+        v.extend(gen::enumerate_histories(3));
         v
     }
     fn strategy(&self, tier: Tier) -> BoxedStrategy<HistCase> {
         use proptest::prelude::*;
-        prop_oneof![60 => gen::hist(tier.pick(24, 60), &[1, 1, 1, 2]), 1 => gen::hist_big(&[1, 1, 2])].boxed()
+        prop_oneof![60 => gen::hist(tier.pick(24, 60), &[1, 1, 1, 2, 3, 4]), 1 => gen::hist_big(&[1, 1, 2, 3, 4])].boxed()
     }
     fn extra_evidence(&self, root: &std::path::Path) -> serde_json::Value {
         crate::engine::fuzz_stats(root, "graph_history")
